@@ -335,6 +335,11 @@ func runForkableCase(o *Out, c fkCfg, ops []fkOp, queries bool, twins ...[]strin
 // genForkableCase builds a config, a tree and an arrival order.
 func genForkableCase(r *Rng, o *Out) (fkCfg, []fkOp, *Tree) {
 	rootNum := uint64(1 + r.Intn(4))
+	if r.Intn(15) == 0 {
+		// heights are uint64: a chain that crosses 2^63, or sits near the top of the range
+		rootNum = []uint64{(uint64(1) << 63) - uint64(1+r.Intn(4)), ^uint64(0) - 400}[r.Intn(2)]
+		o.Stat("forkable.heights_in_the_upper_half_of_uint64", 1)
+	}
 	to := TreeOpts{N: 3 + r.Intn(12), RootNum: rootNum, RootParent: fmt.Sprintf("%dz", rootNum-1),
 		SkipNums: r.Intn(3) == 0, Orphans: r.Intn(4) == 0, Malformed: r.Intn(12) == 0,
 		ForkBias: []int{0, 1, 2, 3, 5}[r.Intn(5)], LibPolicy: r.Intn(4)}
